@@ -92,6 +92,23 @@ Target(T, blk) ==
       t1 == IF blk.name # <<>> THEN [t0 EXCEPT ![ni].v = StrV(blk.name)] ELSE t0
   IN Fill(T, t1, blk.ents, 1)
 
+\* which fields of a *reused* target a successful copy writes (the others are left to the implementation): the field matched by
+\* "Name" always (an unnamed block has the name ""), the field of every value entry, and inside the struct of a nested block the
+\* same again
+RECURSIVE NoneWritten(_)
+NoneWritten(T) == [i \in 1..Len(T.fields) |-> [w |-> FALSE, sub |-> IF T.fields[i].kind = "struct" THEN <<NoneWritten(T.fields[i].sub)>> ELSE <<>>]]
+RECURSIVE Written(_, _)
+RECURSIVE MarkW(_, _, _, _)
+MarkW(T, w, ents, i) ==
+  IF i > Len(ents) THEN w
+  ELSE LET e == ents[i] j == FindField(T, e.k) IN
+       MarkW(T, IF e.kind = "blk" THEN [w EXCEPT ![j].sub = <<Written(T.fields[j].sub, e.b[1])>>] ELSE [w EXCEPT ![j].w = TRUE], ents, i + 1)
+Written(T, blk) ==
+  LET ni == FindField(T, NameKey)
+      w0 == NoneWritten(T)
+      w1 == IF ni # 0 /\ Exported(T.fields[ni].go) /\ T.fields[ni].kind = "string" THEN [w0 EXCEPT ![ni].w = TRUE] ELSE w0
+  IN MarkW(T, w1, blk.ents, 1)
+
 \* ---- design-level lemmas checked by TLC in MC_Bind
 \* L1: the outcome does not depend on the order of the entries (C16 at design level)
 Permute2(blk) == IF Len(blk.ents) = 2 THEN [blk EXCEPT !.ents = <<blk.ents[2], blk.ents[1]>>] ELSE blk
